@@ -3,6 +3,7 @@
   Models: the vocabulary functions of Model/ByteTok.lean, Model/CharTok.lean, Model/Bpe.lean.
 -/
 import TuModel.Lemmas.SpecialL
+import TuModel.Lemmas.VocabL
 import TuModel.Model.Bpe
 namespace Tu.C04
 open Tu
@@ -213,5 +214,228 @@ theorem bpe_detok_single (cfg : BpeCfg) (ign : Bool) (id : Nat) (h : id < 256 + 
 /-! non-vacuity -/
 example : wfTable [([97, 98], 0), ([99, 100], 1), ([97, 98, 99], 2), ([97, 98, 99, 100], 3)] = true := by decide
 example : (mkBpeCfg [([97, 98], 0)] none [[60, 112, 62]] [60, 112, 62] [] []).isSome = true := by decide
+
+/-! ### `token_to_id` inverts `id_to_token` (character and BPE tokenizers); id ranges are disjoint -/
+
+/-- decoding the UTF-8 encoding of a scalar value gives the value back -/
+theorem singleCp_utf8 (c : Nat) (hc : isScalar c = true) : singleCp (utf8 c) = some c := by
+  have hc0 := hc
+  unfold isScalar at hc
+  simp only [Bool.or_eq_true, Bool.and_eq_true, decide_eq_true_eq] at hc
+  by_cases h1 : c < 0x80
+  · have hu : utf8 c = [c] := by unfold utf8; rw [if_pos h1]
+    rw [hu]
+    show (if c < 0x80 then some c else none) = some c
+    rw [if_pos h1]
+  · by_cases h2 : c < 0x800
+    · have hu : utf8 c = [0xC0 + c / 64, 0x80 + c % 64] := by
+        unfold utf8; rw [if_neg h1, if_pos h2]
+      rw [hu]
+      show (if (decide (0xC2 ≤ 0xC0 + c / 64) && decide (0xC0 + c / 64 ≤ 0xDF) && isCont (0x80 + c % 64)) = true
+        then some ((0xC0 + c / 64 - 0xC0) * 64 + (0x80 + c % 64 - 0x80)) else none) = some c
+      have a : (decide (0xC2 ≤ 0xC0 + c / 64) && decide (0xC0 + c / 64 ≤ 0xDF) && isCont (0x80 + c % 64)) = true := by
+        unfold isCont
+        simp only [Bool.and_eq_true, decide_eq_true_eq]; omega
+      rw [if_pos a]
+      exact congrArg some (by omega)
+    · by_cases h3 : c < 0x10000
+      · have hu : utf8 c = [0xE0 + c / 4096, 0x80 + (c / 64) % 64, 0x80 + c % 64] := by
+          unfold utf8; rw [if_neg h1, if_neg h2, if_pos h3]
+        have hv : validUtf8 [0xE0 + c / 4096, 0x80 + (c / 64) % 64, 0x80 + c % 64] = true := by
+          have := validUtf8_utf8_append c hc0 []
+          rw [hu] at this
+          simpa [validUtf8] using this
+        rw [hu]
+        have hl : (decide (0xE0 ≤ 0xE0 + c / 4096) && decide (0xE0 + c / 4096 ≤ 0xEF) &&
+            validUtf8 [0xE0 + c / 4096, 0x80 + (c / 64) % 64, 0x80 + c % 64]) = true := by
+          simp only [Bool.and_eq_true, decide_eq_true_eq]; exact ⟨⟨by omega, by omega⟩, hv⟩
+        show (if (decide (0xE0 ≤ 0xE0 + c / 4096) && decide (0xE0 + c / 4096 ≤ 0xEF) &&
+            validUtf8 [0xE0 + c / 4096, 0x80 + (c / 64) % 64, 0x80 + c % 64]) = true
+          then some ((0xE0 + c / 4096 - 0xE0) * 4096 + (0x80 + (c / 64) % 64 - 0x80) * 64 + (0x80 + c % 64 - 0x80))
+          else none) = some c
+        rw [if_pos hl]
+        exact congrArg some (by omega)
+      · have hu : utf8 c = [0xF0 + c / 262144, 0x80 + (c / 4096) % 64, 0x80 + (c / 64) % 64, 0x80 + c % 64] := by
+          unfold utf8; rw [if_neg h1, if_neg h2, if_neg h3]
+        have hv : validUtf8 [0xF0 + c / 262144, 0x80 + (c / 4096) % 64, 0x80 + (c / 64) % 64, 0x80 + c % 64] = true := by
+          have := validUtf8_utf8_append c hc0 []
+          rw [hu] at this
+          simpa [validUtf8] using this
+        rw [hu]
+        have hl : (decide (0xF0 ≤ 0xF0 + c / 262144) && decide (0xF0 + c / 262144 ≤ 0xF4) &&
+            validUtf8 [0xF0 + c / 262144, 0x80 + (c / 4096) % 64, 0x80 + (c / 64) % 64, 0x80 + c % 64]) = true := by
+          simp only [Bool.and_eq_true, decide_eq_true_eq]; exact ⟨⟨by omega, by omega⟩, hv⟩
+        show (if (decide (0xF0 ≤ 0xF0 + c / 262144) && decide (0xF0 + c / 262144 ≤ 0xF4) &&
+            validUtf8 [0xF0 + c / 262144, 0x80 + (c / 4096) % 64, 0x80 + (c / 64) % 64, 0x80 + c % 64]) = true
+          then some ((0xF0 + c / 262144 - 0xF0) * 262144 + (0x80 + (c / 4096) % 64 - 0x80) * 4096 +
+            (0x80 + (c / 64) % 64 - 0x80) * 64 + (0x80 + c % 64 - 0x80))
+          else none) = some c
+        rw [if_pos hl]
+        exact congrArg some (by omega)
+
+/-- char tokenizer, the statement with the hypothesis that is actually needed (and that matches the Rust
+`char::from_bytes`): no special token is the UTF-8 encoding of an alphabet character.  `ho` is not used:
+`charIdToToken` asks the special vocabulary first, exactly like the Rust code. -/
+theorem char_tokenToId_idToToken' (cfg : CharCfg) (hn : cfg.sp.tokens.Nodup)
+    (ha : cfg.alphabet.Nodup) (hs : ∀ c ∈ cfg.alphabet, isScalar c = true)
+    (hd : ∀ c ∈ cfg.alphabet, utf8 c ∉ cfg.sp.tokens)
+    (id : Nat) (t : List Nat) (h : charIdToToken cfg id = some t) : charTokenToId cfg t = some id := by
+  unfold charIdToToken at h
+  unfold charTokenToId
+  cases hsp : cfg.sp.idToToken id with
+  | some t' =>
+    rw [hsp] at h
+    injection h with h; subst h
+    rw [special_tokenToId_idToToken cfg.sp hn id t' hsp]
+  | none =>
+    rw [hsp] at h
+    rw [Option.map_eq_some_iff] at h
+    obtain ⟨c, hc, ht⟩ := h
+    subst ht
+    have hcm : c ∈ cfg.alphabet := List.mem_of_getElem? hc
+    rw [tokenToId_none_of_not_mem cfg.sp _ (hd c hcm), singleCp_utf8 c (hs c hcm)]
+    exact natIdxOf_of_getElem? ha hc
+
+/-- char tokenizer: `token_to_id` inverts `id_to_token` on every id (alphabet of distinct scalar values; no special token is the
+UTF-8 encoding of a single code point) -/
+theorem char_tokenToId_idToToken (cfg : CharCfg) (ho : cfg.sp.offset = cfg.alphabet.length) (hn : cfg.sp.tokens.Nodup)
+    (ha : cfg.alphabet.Nodup) (hs : ∀ c ∈ cfg.alphabet, isScalar c = true)
+    (hd : ∀ t ∈ cfg.sp.tokens, singleCp t = none)
+    (id : Nat) (t : List Nat) (h : charIdToToken cfg id = some t) : charTokenToId cfg t = some id := by
+  refine char_tokenToId_idToToken' cfg hn ha hs ?_ id t h
+  intro c hc hm
+  have := hd _ hm
+  rw [singleCp_utf8 c (hs c hc)] at this
+  cases this
+
+/-- BPE tokenizer: `token_to_id` inverts `id_to_token` on every id (well-formed table; no special token is a single byte or a table key) -/
+theorem bpe_tokenToId_idToToken (cfg : BpeCfg) (ho : cfg.sp.offset = 256 + cfg.table.length) (hwf : wfTable cfg.table = true)
+    (hn : cfg.sp.tokens.Nodup)
+    (hd : ∀ t ∈ cfg.sp.tokens, t.length ≠ 1 ∧ tlookup cfg.table t = none)
+    (id : Nat) (t : List Nat) (h : bpeIdToToken cfg id = some t) : bpeTokenToId cfg t = some id := by
+  unfold bpeIdToToken at h
+  unfold bpeTokenToId
+  by_cases h1 : id < 256 + cfg.table.length
+  · rw [if_pos h1] at h
+    unfold bpeIdBytes at h
+    by_cases h2 : id < 256
+    · rw [if_pos h2] at h
+      injection h with h; subst h
+      have hnm : [id] ∉ cfg.sp.tokens := fun hm => (hd _ hm).1 rfl
+      rw [tokenToId_none_of_not_mem cfg.sp _ hnm]
+    · rw [if_neg h2, if_pos h1] at h
+      have hl : tlookup cfg.table t = some (id - 256) := tlookup_of_tbytes hwf h
+      have hlen : 2 ≤ t.length := wf_key_length hwf _ (tbytes_mem h)
+      have hnm : t ∉ cfg.sp.tokens := by
+        intro hm
+        have := (hd _ hm).2
+        rw [hl] at this
+        cases this
+      rw [tokenToId_none_of_not_mem cfg.sp _ hnm]
+      match t, hlen, hl with
+      | [], hlen, _ => simp at hlen
+      | [b], hlen, _ => simp at hlen
+      | a :: b :: r, _, hl =>
+        show (tlookup cfg.table (a :: b :: r)).map (256 + ·) = some id
+        rw [hl]
+        show some (256 + (id - 256)) = some id
+        exact congrArg some (by omega)
+  · rw [if_neg h1] at h
+    rw [special_tokenToId_idToToken cfg.sp hn id t h]
+
+/-- regular and special ids are disjoint: every special id is at or above the number of regular tokens, in all three tokenizers -/
+theorem special_ids_disjoint (sp : Special) (id : Nat) (h : (sp.idToToken id).isSome = true) : sp.offset ≤ id :=
+  (special_id_range sp id h).1
+
+/-- with the offsets the constructors set, a regular id of the char / BPE tokenizer is never a special id -/
+theorem char_regular_not_special (cfg : CharCfg) (ho : cfg.sp.offset = cfg.alphabet.length) (id : Nat)
+    (h : id < cfg.alphabet.length) : cfg.sp.idToToken id = none := by
+  cases hx : cfg.sp.idToToken id with
+  | none => rfl
+  | some t =>
+    have := special_ids_disjoint cfg.sp id (by rw [hx]; rfl)
+    omega
+
+theorem bpe_regular_not_special (cfg : BpeCfg) (ho : cfg.sp.offset = 256 + cfg.table.length) (id : Nat)
+    (h : id < 256 + cfg.table.length) : cfg.sp.idToToken id = none := by
+  cases hx : cfg.sp.idToToken id with
+  | none => rfl
+  | some t =>
+    have := special_ids_disjoint cfg.sp id (by rw [hx]; rfl)
+    omega
+
+/-! non-vacuity of the new hypotheses (small concrete configurations) -/
+
+/-- alphabet `a`, `é`, `€`, U+1F600; special tokens `<pad>` and `<unk>` -/
+def exCharCfg : CharCfg :=
+  { alphabet := [97, 0xE9, 0x20AC, 0x1F600],
+    sp := { tokens := [[60, 112, 97, 100, 62], [60, 117, 110, 107, 62]], offset := 4, padId := 4, prefixIds := [], suffixIds := [] },
+    unkId := 5 }
+
+example : isScalar 0x20AC = true ∧ singleCp (utf8 0x20AC) = some 0x20AC := by decide
+example : isScalar 0x10FFFF = true ∧ isScalar 0xD7FF = true ∧ isScalar 0xE000 = true ∧ isScalar 0xD800 = false := by decide
+example : [0, 0x7F, 0x80, 0x7FF, 0x800, 0xD7FF, 0xE000, 0xFFFF, 0x10000, 0x10FFFF].all
+    (fun c => isScalar c && singleCp (utf8 c) == some c) = true := by decide
+
+example : exCharCfg.sp.offset = exCharCfg.alphabet.length ∧ exCharCfg.sp.tokens.Nodup ∧ exCharCfg.alphabet.Nodup ∧
+    (∀ c ∈ exCharCfg.alphabet, isScalar c = true) ∧ (∀ t ∈ exCharCfg.sp.tokens, singleCp t = none) := by decide
+example : (List.range 7).map (charIdToToken exCharCfg) =
+    [some [97], some [0xC3, 0xA9], some [0xE2, 0x82, 0xAC], some [0xF0, 0x9F, 0x98, 0x80],
+     some [60, 112, 97, 100, 62], some [60, 117, 110, 107, 62], none] := by decide
+example : (List.range 6).all (fun id => match charIdToToken exCharCfg id with
+    | some t => charTokenToId exCharCfg t == some id
+    | none => false) = true := by decide
+/-- the constructor produces such configurations -/
+example : (mkCharCfg [97, 0xE9, 0x20AC, 0x1F600] [[60, 112, 97, 100, 62]] [60, 117, 110, 107, 62] [60, 112, 97, 100, 62] [] []).map
+    (fun cfg => (cfg.alphabet, cfg.sp.tokens, cfg.sp.offset)) =
+    some (exCharCfg.alphabet, exCharCfg.sp.tokens, exCharCfg.sp.offset) := by decide
+
+/-- regression examples for a corrected model defect: `singleCp` used to check only `validUtf8` for 3- and
+4-byte inputs, not that the first byte is a 3- / 4-byte lead, so three ASCII bytes "decoded" to code point 0
+(truncated subtraction) where the Rust `char::from_bytes` answers `chars.len() != 1`.  Found while proving
+`char_tokenToId_idToToken`; the difference was not observable through the real constructor, whose alphabet is a
+fixed ASCII set without U+0000 (the bogus code point was then simply not in the alphabet). -/
+example : singleCp [60, 112, 62] = none ∧ singleCp [97, 98, 99] = none ∧ singleCp [97, 98, 99, 100] = none ∧
+    singleCp [97, 0xC3, 0xA9] = none := by decide
+example :
+    let cfg : CharCfg := { alphabet := [0, 97], sp := { tokens := [[60, 117, 110, 107, 62]], offset := 2, padId := 2, prefixIds := [], suffixIds := [] }, unkId := 2 }
+    charTokenToId cfg [97, 98, 99] = none ∧ charIdToToken cfg 0 = some [0] := by decide
+
+/-- the hypotheses of `char_tokenToId_idToToken'` hold with the 3-byte special token `<p>` -/
+def exCharCfg' : CharCfg :=
+  { alphabet := [97, 0xE9, 0x20AC, 0x1F600],
+    sp := { tokens := [[60, 112, 62], [60, 117, 110, 107, 62]], offset := 4, padId := 4, prefixIds := [], suffixIds := [] },
+    unkId := 5 }
+example : exCharCfg'.sp.tokens.Nodup ∧ exCharCfg'.alphabet.Nodup ∧
+    (∀ c ∈ exCharCfg'.alphabet, isScalar c = true) ∧ (∀ c ∈ exCharCfg'.alphabet, utf8 c ∉ exCharCfg'.sp.tokens) := by decide
+example : (List.range 6).all (fun id => match charIdToToken exCharCfg' id with
+    | some t => charTokenToId exCharCfg' t == some id
+    | none => false) = true := by decide
+
+def exBpeCfg : BpeCfg :=
+  { table := [([97, 98], 0), ([99, 100], 1), ([97, 98, 99], 2), ([97, 98, 99, 100], 3)],
+    sp := { tokens := [[60, 112, 62], []], offset := 260, padId := 260, prefixIds := [], suffixIds := [] } }
+
+example : exBpeCfg.sp.offset = 256 + exBpeCfg.table.length ∧ wfTable exBpeCfg.table = true ∧ exBpeCfg.sp.tokens.Nodup ∧
+    (∀ t ∈ exBpeCfg.sp.tokens, t.length ≠ 1 ∧ tlookup exBpeCfg.table t = none) := by decide
+example : [97, 255, 256, 259, 260, 261, 262].map (bpeIdToToken exBpeCfg) =
+    [some [97], some [255], some [97, 98], some [97, 98, 99, 100], some [60, 112, 62], some [], none] := by decide
+example : [97, 255, 256, 259, 260, 261].all (fun id => match bpeIdToToken exBpeCfg id with
+    | some t => bpeTokenToId exBpeCfg t == some id
+    | none => false) = true := by decide
+
+example : (exBpeCfg.sp.idToToken 260).isSome = true ∧ exBpeCfg.sp.offset ≤ 260 := by decide
+example : (exCharCfg.sp.idToToken 5).isSome = true ∧ exCharCfg.sp.offset ≤ 5 := by decide
+
+/-- the hypothesis `hd` is needed (char): a special token that is the UTF-8 encoding of an alphabet
+character shadows that character in `token_to_id` -/
+example :
+    let cfg : CharCfg := { alphabet := [97, 98], sp := { tokens := [[98]], offset := 2, padId := 2, prefixIds := [], suffixIds := [] }, unkId := 2 }
+    charIdToToken cfg 1 = some [98] ∧ charTokenToId cfg [98] = some 2 := by decide
+
+/-- the hypothesis `hd` is needed (BPE): a special token equal to a table key shadows the merge token -/
+example :
+    let cfg : BpeCfg := { table := [([97, 98], 0)], sp := { tokens := [[97, 98]], offset := 257, padId := 257, prefixIds := [], suffixIds := [] } }
+    bpeIdToToken cfg 256 = some [97, 98] ∧ bpeTokenToId cfg [97, 98] = some 257 := by decide
 
 end Tu.C04
